@@ -13,6 +13,7 @@ Inductive tev :=
 | TAcceptNone
 | TConnResult (reply ok registered : bool) (peer : N)   (* handle_connecting_result *)
 | TDisconnect (peer : N)                  (* Network::disconnect found the peer registered *)
+| TStreamArrive (h : N)                  (* not recorded by the implementation: placed by the translator *)
 | TReqStart (h : N) | TReqEnd (h : N)
 | THExit (h : N) | THAbort (h : N)
 | TJoin (cancelled : bool)                (* connection_handlers.join_next() returned *)
@@ -46,6 +47,7 @@ Definition resolve (s : state) (e : tev) : option label :=
   | TConnResult reply ok registered peer =>
       Some (if reply then DialDone (ok && registered) peer else InboundDone (ok && registered) peer)
   | TDisconnect peer => Some (Disconnect peer)
+  | TStreamArrive h => Some (StreamArrive h)
   | TReqStart h => Some (ReqStart h)
   | TReqEnd h => Some (ReqEnd h)
   | THExit h => Some (HExit h)
